@@ -39,18 +39,55 @@ def geomAffineJson (g : Geom) : Json :=
   ratsToJson [(g.col 0).x, (g.col 0).y, (g.col 0).z, (g.col 1).x, (g.col 1).y, (g.col 1).z,
               (g.col 2).x, (g.col 2).y, (g.col 2).z, g.pos.x, g.pos.y, g.pos.z]
 
-/-- voxel function of a flat C-order array (driver plumbing: indices outside give 0) -/
-def voxOf (arr : Array Int) (shape : Ax → Int) : (Ax → Int) → Int := fun k =>
-  let i := (k 0 * shape 1 + k 1) * shape 2 + k 2
-  if inShape shape k then arr.getD i.toNat 0 else 0
+/-- voxel function of a flat C-order array with `nch` channel values per voxel (channel index last);
+driver plumbing: indices outside give zeros -/
+def voxOf (arr : Array Int) (shape : Ax → Int) (nch : Nat) : (Ax → Int) → List Int := fun k =>
+  let i := ((k 0 * shape 1 + k 1) * shape 2 + k 2).toNat * nch
+  if inShape shape k then (List.range nch).map (fun c => arr.getD (i + c) 0) else List.replicate nch 0
 
-def flatten (shape : Ax → Int) (vox : (Ax → Int) → Int) : List Int := Id.run do
-  let mut out : Array Int := #[]
+def allVoxels {α : Type} (shape : Ax → Int) (vox : (Ax → Int) → α) : List α := Id.run do
+  let mut out : Array α := #[]
   for i in [0:(shape 0).toNat] do
     for j in [0:(shape 1).toNat] do
       for k in [0:(shape 2).toNat] do
         out := out.push (vox (mk3 (i : Int) (j : Int) (k : Int)))
   pure out.toList
+
+def flatten (shape : Ax → Int) (vox : (Ax → Int) → List Int) : List Int := (allVoxels shape vox).flatten
+
+/-! numpy's statistics as used by `Volume.pad` (MINIMUM / MAXIMUM / MEAN / MEDIAN), followed by the cast of
+the padding constant to the integer dtype of the array (truncation towards zero) -/
+def statMin (xs : List Int) : Int := xs.foldl min (xs.headD 0)
+def statMax (xs : List Int) : Int := xs.foldl max (xs.headD 0)
+def statMean (xs : List Int) : Int := Int.tdiv xs.sum (xs.length : Int)
+def insertSorted (x : Int) : List Int → List Int
+  | [] => [x]
+  | y :: ys => if x ≤ y then x :: y :: ys else y :: insertSorted x ys
+def statMedian (xs : List Int) : Int :=
+  let s := xs.foldr insertSorted []
+  let n := s.length
+  if n % 2 == 1 then s.getD (n / 2) 0 else Int.tdiv (s.getD (n / 2 - 1) 0 + s.getD (n / 2) 0) 2
+
+/-- the statistic of a volume with `nch` channel values per voxel: over the whole array (the same value in
+every channel) or channel by channel (`per_channel=True`) -/
+def statFn (stat : List Int → Int) (nch : Nat) (perChannel : Bool) : Vol (List Int) → List Int := fun v =>
+  let vs := allVoxels v.geom.shape v.vox
+  if perChannel then (List.range nch).map (fun c => stat (vs.map (fun x => x.getD c 0)))
+  else List.replicate nch (stat vs.flatten)
+
+def getMode (j : Json) (nch : Nat) : Except String (PadMode (List Int)) := do
+  let kind ← getStr j "mode"
+  let pc := match j.getObjVal? "per_channel" with
+    | .ok (.bool b) => b
+    | _ => false
+  match kind with
+  | "CONSTANT" => pure (.constant (List.replicate nch (← getInt j "c")))
+  | "EDGE" => pure .edge
+  | "MINIMUM" => pure (.stat (statFn statMin nch pc))
+  | "MAXIMUM" => pure (.stat (statFn statMax nch pc))
+  | "MEAN" => pure (.stat (statFn statMean nch pc))
+  | "MEDIAN" => pure (.stat (statFn statMedian nch pc))
+  | _ => throw s!"unknown pad mode {kind}"
 
 def getAff (j : Json) (k : String) : Except String Aff := do
   let l ← getRatList j k
@@ -75,16 +112,21 @@ def handlers : List (String × Handler) := [
     let g ← getGeom (← j.getObjVal? "a")
     let h ← getGeom (← j.getObjVal? "b")
     let tol ← getOptRat j "tol"
-    pure (exceptToJson (fun (b : Bool) => Json.bool b) (geometryEqual g h tol))),
+    let ca := (getInt j "ca").toOption.getD 0
+    let cb := (getInt j "cb").toOption.getD 0
+    pure (exceptToJson (fun (b : Bool) => Json.bool b) (geometryEqualC g h ca cb tol))),
   ("matchGeometry", fun j => do
     let g ← getGeom (← j.getObjVal? "src")
     let t ← getGeom (← j.getObjVal? "tgt")
     let arr ← getIntList j "arr"
     let tol ← getRat j "tol"
-    let c ← getInt j "c"
-    let src : Vol Int := { geom := g, vox := voxOf arr.toArray g.shape }
-    let r := matchGeometry src t tol c
-    pure (exceptToJson (fun (v : Vol Int) => Json.mkObj [
+    let nch := match j.getObjVal? "nch" with
+      | .ok v => (v.getNat?.toOption.getD 1)
+      | .error _ => 1
+    let mode ← getMode j nch
+    let src : Vol (List Int) := { geom := g, vox := voxOf arr.toArray g.shape nch }
+    let r := matchGeometry src t tol mode
+    pure (exceptToJson (fun (v : Vol (List Int)) => Json.mkObj [
       ("shape", intsToJson [v.geom.shape 0, v.geom.shape 1, v.geom.shape 2]),
       ("affine", geomAffineJson v.geom),
       ("arr", intsToJson (flatten v.geom.shape v.vox))]) r)),
